@@ -25,6 +25,7 @@ ASSUMPTIONS = ["two references sharing nothing with Genz's algorithm: Plackett's
                "scipy.integrate.quad (epsabs 1e-13); a point where they disagree by >1e-10 is counted as oracle-inconclusive, not judged",
                "reference clause for |r|<=1-1e-6; structural clauses (range, monotonicity, rectangle mass, tails, marginals) up to 1-1e-12",
                "epsilon 1e-9 for the structural clauses (rounding residues of 1e-45 are not violations); 1e-7 from the statement for accuracy"]
+REQUIRED_NOTES = ["large-cases"]
 TECHNIQUE = "runtime monitoring: postcondition monitor on the kernel CDFs with two quadrature references and structural CDF invariants on sorted grids"
 
 EPS = 1e-9
@@ -138,6 +139,10 @@ def run_case(ctx, k, rng):
         far = float(rng.choice([40.0, 40.0, 200.0, 1e3, 1e4]))     # pixel corners of a kernel much narrower than a pixel
         zs = np.unique(np.concatenate([rng.normal(0, 2, 6), [-far, -40.0, -9.0, -3.0, 0.0, 3.0, 9.0, 40.0, far], rng.uniform(-7, 7, 3),
                                        rng.uniform(-far, far, 2)]))
+        if k % 61 == 5:
+            # the corner mesh of a high-resolution image in ONE kernel call: 260-400 values per axis, 7e4-1.6e5 points
+            zs = np.unique(np.concatenate([zs, np.linspace(-7.5, 7.5, int(rng.integers(250, 390))) + float(rng.normal(0, 0.01))]))
+            ctx.note("large-cases")
         gx, gy = mx + zs * sx, my + zs * sy
         XX, YY = np.meshgrid(gx, gy, indexing="ij")
         G = F(XX.ravel(), YY.ravel(), "gaussian").reshape(len(gx), len(gy))
